@@ -1,11 +1,13 @@
 import FP.Model.Euler
 import FP.Spec.Walk
 import FP.Proofs.Euler
+import FP.Proofs.Round
+import FP.Proofs.WalkDecodeMult
 /-!
 # C14 — walk reconstruction uses every edge exactly as often as the solver decided
 -/
 namespace FP.Props.C14
-open FP.Euler FP.Spec
+open FP FP.WDM FP.Euler FP.Spec
 variable {V : Type} [DecidableEq V]
 
 /-- edge multiset of an adjacency structure -/
@@ -34,5 +36,102 @@ theorem reconstruct_euler (g : Adj V) (s t : V) (h : EulerianST g s t) :
 /-- an all-zero assignment yields the empty walk -/
 theorem reconstruct_zero (g : Adj V) (s t : V) (h : edges g = []) : reconstruct g s t = [] :=
   FP.Euler.reconstruct_nil g s t h
+
+/-! ## From the solver's values to the walk (`_build_residual_graph_for_layer` + `round()`) -/
+
+/-- Python's `round(x)` returns the integer within distance `< 1/2` of `x` -/
+theorem pyRound_near (x : Rat) (n : Int) (h1 : (n : Rat) - 1/2 < x) (h2 : x < (n : Rat) + 1/2) :
+    pyRound x = n := FP.pyRound_near x n h1 h2
+
+/-- `round` fixes integers -/
+theorem pyRound_int (n : Int) : pyRound (n : Rat) = n := FP.pyRound_int n
+
+/-- `_build_residual_graph_for_layer`: the residual adjacency structure contains every graph edge
+`e` exactly `m e` times and no other pair. -/
+theorem edges_buildResidual (g : Graph) (m : Edge → Nat) (hN : g.nodes.Nodup) (hE : g.edges.Nodup)
+    (hEnd : ∀ e ∈ g.edges, e.1 ∈ g.nodes) (e : Edge) :
+    (edges (buildResidual g m)).count e = if e ∈ g.edges then m e else 0 :=
+  FP.WDM.edges_buildResidual g m hN hE hEnd e
+
+/-- the balance used in `MultST` is the sum of the multiplicities over the out-edges of `x` minus
+the sum over its in-edges -/
+theorem bal_multEdges (g : Graph) (m : Edge → Nat) (x : Node) :
+    bal (multEdges g m) x = (outN g m x : Int) - (inN g m x : Int) := FP.WDM.bal_multEdges g m x
+
+/-- **C14 in the user's vocabulary.** For per-walk multiplicities `m` that are balanced at inner
+nodes, leave the source once, enter the sink once and are connected (`MultST`), every pair `e`
+occurs among the consecutive pairs of `s :: walk ++ [t]` exactly `m e` times if it is a graph
+edge and never otherwise: none dropped, none invented. -/
+theorem walk_traverses_multiplicity (g : Graph) (m : Edge → Nat) (s t : Node)
+    (h : MultST g m s t) (e : Edge) :
+    (walkEdges (s :: walkOfMult g m s t ++ [t])).count e = if e ∈ g.edges then m e else 0 :=
+  FP.WDM.walkOfMult_count g m s t h e
+
+/-- the same from the solver's raw values: whenever every value is within `< 1/2` of the intended
+multiplicity, the walk built from `range(round(value))` traverses each edge exactly `m e` times -/
+theorem walk_traverses_rounded_values (g : Graph) (vals : Edge → Rat) (m : Edge → Nat) (s t : Node)
+    (h : MultST g m s t)
+    (hv : ∀ e, (m e : Rat) - 1/2 < vals e ∧ vals e < (m e : Rat) + 1/2) (e : Edge) :
+    (walkEdges (s :: walkOfValues g vals s t ++ [t])).count e = if e ∈ g.edges then m e else 0 :=
+  FP.WDM.walkOfValues_count g vals m s t h hv e
+
+/-! ### non-vacuity: a 2-cycle traversed twice plus a self-loop -/
+namespace Example
+
+def exG : Graph :=
+  { nodes := ["s", "a", "b", "t"],
+    edges := [("s", "a"), ("a", "b"), ("b", "a"), ("a", "a"), ("a", "t")] }
+
+def exM : Edge → Nat := fun e =>
+  ([(("s", "a"), 1), (("a", "b"), 2), (("b", "a"), 2), (("a", "a"), 1), (("a", "t"), 1)].lookup e).getD 0
+
+example : walkOfMult exG exM "s" "t" = ["a", "b", "a", "b", "a", "a"] := by decide
+
+theorem bal_zero_of_notMem (x : Node) (hx : x ∉ exG.nodes) : bal (multEdges exG exM) x = 0 := by
+  have h1 : (multEdges exG exM).countP (·.1 = x) = 0 := by
+    rw [List.countP_eq_zero]; intro e he
+    have : e.1 ∈ exG.nodes := by revert e; decide
+    simp only [decide_eq_true_eq]; intro h; exact hx (h ▸ this)
+  have h2 : (multEdges exG exM).countP (·.2 = x) = 0 := by
+    rw [List.countP_eq_zero]; intro e he
+    have : e.2 ∈ exG.nodes := by revert e; decide
+    simp only [decide_eq_true_eq]; intro h; exact hx (h ▸ this)
+  simp [bal, outdeg, indeg, h1, h2]
+
+/-- the hypotheses of `walk_traverses_multiplicity` hold on a graph with a 2-cycle of
+multiplicity 2 and a self-loop -/
+theorem exMultST : MultST exG exM "s" "t" where
+  nodesNodup := by decide
+  edgesNodup := by decide
+  endpoints := by decide
+  smem := by decide
+  st := by decide
+  inner := by
+    intro x h0 h3
+    by_cases hx : x ∈ exG.nodes
+    · simp only [exG, List.mem_cons, List.not_mem_nil, or_false] at hx
+      rcases hx with rfl | rfl | rfl | rfl <;> first | decide | contradiction
+    · exact bal_zero_of_notMem x hx
+  src := by decide
+  snk := by decide
+  conn := by
+    have r0 : Reach (multEdges exG exM) "s" "s" := .refl _
+    have r1 : Reach (multEdges exG exM) "s" "a" := .step r0 (by decide)
+    have r2 : Reach (multEdges exG exM) "s" "b" := .step r1 (by decide)
+    intro e he _
+    simp only [exG, List.mem_cons, List.not_mem_nil, or_false] at he
+    rcases he with rfl | rfl | rfl | rfl | rfl <;> assumption
+
+example (e : Edge) : (walkEdges ("s" :: walkOfMult exG exM "s" "t" ++ ["t"])).count e
+    = if e ∈ exG.edges then exM e else 0 := walk_traverses_multiplicity exG exM "s" "t" exMultST e
+
+/-- solver values with noise and an exact tie-free neighbourhood: `1.9999`, `2.3`, `-0.2` … -/
+def exVals : Edge → Rat := fun e =>
+  ([(("s", "a"), (10000001 : Rat) / 10000000), (("a", "b"), 23 / 10), (("b", "a"), 17 / 10),
+    (("a", "a"), 1), (("a", "t"), 7 / 10), (("t", "s"), -2 / 10)].lookup e).getD 0
+
+example : walkOfValues exG exVals "s" "t" = ["a", "b", "a", "b", "a", "a"] := by decide +kernel
+
+end Example
 
 end FP.Props.C14
